@@ -1,8 +1,71 @@
 import Driver.Util
-open Lean
+import Paroxy.Model.NormalizePredicate
+import Paroxy.Spec.NormalizePredicate
+import Paroxy.Gen.CompareSpans
+open Lean Paroxy Paroxy.Spec Paroxy.NP Paroxy.Spec.NP
 
 namespace Driver.C16
 
-def handlers : List (String × Handler) := []
+/-- The dictionary of the generated table (same definition as `Paroxy.NP.names` in the proofs). -/
+def names : List (Codes × Codes) :=
+  (resolveUpdates (Gen.table.map fun p => (p.1, p.1)) Gen.updates).getD []
+
+def model : Handler := fun j => do
+  let s ← getStr j "s"
+  match normalize names (codesOf s) with
+  | some (k, neg) => pure (Json.mkObj [("key", Json.str (strOf k)), ("neg", Json.bool neg)])
+  | none => pure (Json.mkObj [("exc", "ValueError")])
+
+def optNat (j : Json) : Except String (Option Nat) :=
+  match j with
+  | .null => pure none
+  | _ => do let n ← j.getNat?; pure (some n)
+
+def parseStyle (j : Json) : Except String FormulaStyle := do
+  let up ← getArr j "up"
+  let idx ← getArr j "idx"
+  let ops ← getArr j "ops"
+  let junk ← getArr j "junk"
+  if up.size != 4 || idx.size != 4 || ops.size != 3 || junk.size != 8 then throw "bad style arity"
+  let opd (i : Nat) : Except String OperandStyle := do
+    let u ← up[i]!.getBool?
+    let d ← optNat idx[i]!
+    pure { upper := u, index := d }
+  let ops' ← ops.toList.mapM fun o => do
+    let s ← o.getStr?
+    pure (if s == "a" then OpStyle.ascii else OpStyle.canonical)
+  let js ← junk.toList.mapM fun x => do let s ← x.getStr?; pure (codesOf s)
+  match ops', js with
+  | [p1, p2, p3], [j0, j1, j2, j3, j4, j5, j6, j7] =>
+    pure { s1 := ← opd 0, s2 := ← opd 1, s3 := ← opd 2, s4 := ← opd 3, p1, p2, p3,
+           j0, j1, j2, j3, j4, j5, j6, j7 }
+  | _, _ => throw "bad style"
+
+/-- `c16.render`: the specification's rendering of a formula spelling of a key. -/
+def render : Handler := fun j => do
+  let key ← getStr j "key"
+  let st ← parseStyle (← j.getObjVal? "style")
+  match parseKey (codesOf key) with
+  | none => throw "not a key"
+  | some k =>
+    pure (Json.mkObj [("s", Json.str (strOf (renderFormula k st))), ("junkOk", Json.bool st.junkOk),
+      ("balanced", Json.bool k.balanced)])
+
+def renderNameH : Handler := fun j => do
+  let name ← getStr j "name"
+  let mask ← getArr j "mask"
+  let m ← mask.toList.mapM fun b => b.getBool?
+  pure (Json.mkObj [("s", Json.str (strOf (renderName (codesOf name) m)))])
+
+def tables : Handler := fun _ => do
+  let decos := decorations.map fun (a, b, n) => Json.arr #[Json.str (strOf a), Json.str (strOf b), Json.bool n]
+  let abbr := abbreviations.map fun (s, k) => Json.arr #[Json.str (strOf s), Json.str (strOf k.codes)]
+  let al := aliases.map fun (n, k) => Json.arr #[Json.str (strOf n), Json.str (strOf k.codes)]
+  let keys := allKeys.map fun k => Json.str (strOf k.codes)
+  pure (Json.mkObj [("decorations", Json.arr decos.toArray), ("abbreviations", Json.arr abbr.toArray),
+    ("aliases", Json.arr al.toArray), ("keys", Json.arr keys.toArray)])
+
+def handlers : List (String × Handler) :=
+  [("c16.model", model), ("c16.render", render), ("c16.renderName", renderNameH), ("c16.tables", tables)]
 
 end Driver.C16
